@@ -92,8 +92,6 @@ for X in ('a', 'g'):
         f'{L}.update_{X}_factor', props=['C04', 'C05'],
         params={'alpha': KDyn},
         requires=[('alpha_is_number', 'isinstance(alpha, (int, float)) and not isinstance(alpha, bool)'),
-                  ('factor_is_tensor_or_pending', f'self._{X}_factor is None or is_tensor(self._{X}_factor) or is_future(self._{X}_factor)'),
-                  ('pending_has_value', f'implies(is_future(self._{X}_factor), self._{X}_factor.will_be is not None)'),
                   ('batch_2d', f'implies(self._{X}_batch is not None, len(self._{X}_batch.shape) == 2)')],
         lets={'M': f'(smul(1 / old(self._{X}_count), old(val(self._{X}_batch))) if old(self._{X}_count) > 1 else old(val(self._{X}_batch)))',
               'prev': f'(diag(full([old(self._{X}_batch.shape[0])], 1.0)) if old(self._{X}_factor) is None else old(val(awaited(self._{X}_factor))))'},
@@ -117,8 +115,6 @@ for X in ('a', 'g'):
         f'{L}.reduce_{X}_factor', props=['C04', 'C03', 'C13', 'C02'],
         params={'group': G},
         requires=[('member_of_group', 'in_group(group)'), ('tdc_present', 'self.tdc is not None'),
-                  ('factor_is_tensor_or_pending', f'self._{X}_factor is None or is_tensor(self._{X}_factor) or is_future(self._{X}_factor)'),
-                  ('pending_has_value', f'implies(is_future(self._{X}_factor), self._{X}_factor.will_be is not None)'),
                   ('factor_square', f'implies(self._{X}_factor is not None, is_square(awaited(self._{X}_factor).shape))'),
                   ('known_method', 'self.allreduce_method is AllreduceMethod.ALLREDUCE or self.allreduce_method is AllreduceMethod.ALLREDUCE_BUCKETED')],
         raises=[('RuntimeError', f'self._{X}_factor is None')],
@@ -140,8 +136,9 @@ GRADS = [('module_present', 'self.module is not None and self.module.module is n
          ('distinct_parameters', 'self.module.module.bias is not self.module.module.weight'),
          ('weight_grad_present', 'self.module.module.weight.grad is not None'),
          ('bias_grad_present', 'implies(self.module.module.bias is not None, self.module.module.bias.grad is not None)')]
-PENDING = lambda f: [(f'{f}_tensor_or_pending', f'self.{f} is None or is_tensor(self.{f}) or is_future(self.{f})'),      # noqa: E731
-                     (f'{f}_pending_has_value', f'implies(is_future(self.{f}), self.{f}.will_be is not None)')]
+# `x is None or a Tensor or a Future with a non-null value` is the declared type invariant of these fields
+# (contracts/classes.py, checked at every store); nothing to require
+PENDING = lambda f: []      # noqa: E731
 MW, MB = 'self.module.module.weight', 'self.module.module.bias'
 contract(
     f'{L}.update_grad', props=['C01', 'C07', 'C10'],
@@ -165,16 +162,22 @@ contract(
 )
 
 contract(
-    f'{L}.broadcast_grad', props=['C02', 'C03', 'C13'],
+    f'{L}.broadcast_grad', props=['C02', 'C03', 'C13', 'C07', 'C10'],
     params={'src': KInt, 'group': G},
     requires=GRADS + PENDING('_grad') + [('member_of_group', 'in_group(group)'), ('root_is_member', 'rank_in_group(src, group)'),
-                                         ('tdc_present', 'self.tdc is not None')],
+                                         ('tdc_present', 'self.tdc is not None'),
+                                         ('preconditioned_gradient_is_its_own_tensor',
+                                          f'implies(self._grad is not None, awaited(self._grad) is not {MW}.grad and '
+                                          f'implies({MB} is not None, awaited(self._grad) is not {MB}.grad))')],
     raises=[('RuntimeError', 'self._grad is None and my_rank() == src')],
     ensures=[
         ('has_gradient', 'self._grad is not None'),
         ('root_keeps_value', 'implies(my_rank() == src, val(awaited(self._grad)) == old(val(awaited(self._grad))))'),
         ('alone_nothing_sent', 'implies(group_size(group) == 1, trace() == old(trace()))'),
         ('one_broadcast_otherwise', 'implies(group_size(group) != 1, len(trace()) == len(old(trace())) + 1)'),
+        # the raw gradient D must still be readable when the clip factor is computed (C07) / a step only
+        # rebinds gradients (C10): the receive buffer is never a module gradient
+        ('raw_gradients_untouched', f'val({MW}.grad) == old(val({MW}.grad)) and implies({MB} is not None, val({MB}.grad) == old(val({MB}.grad)))'),
     ],
     modifies=['self._grad', '*.resolved', '*.val', 'ghost:trace', 'ghost:next_sid'],
 )
